@@ -61,6 +61,6 @@ SpecTheorems ==
         /\ Classify(Render(Cls.tree, AllParens)) = Cls)
 
 Case == [kind |-> "parse", toks |-> TokTexts(toks), class |-> Cls.class, bal |-> Balanced(toks),
-         tree |-> Cls.tree, occ |-> IF Cls.class = "WF" THEN Occurrences(Cls.tree) ELSE <<>>]
+         tree |-> JTree(Cls.tree), occ |-> IF Cls.class = "WF" THEN Occurrences(Cls.tree) ELSE <<>>]
 Emit == PrintT(ToJson(Case))
 =============================================================================
